@@ -67,7 +67,7 @@ def declareDtors (h : Hist) (s : St) : St :=
 
 def doOp (h : Hist) (tag : String) (op : Op) (withReg : Bool := true) (after : List Op := []) : Hist × String :=
   let s0 := declareDtors h { h.st with log := [] }
-  let pend := stepPending s0 op
+  let pend := stepPending sourceCfg s0 op
   let s1 := (op :: after).foldl (step sourceCfg) s0
   -- the allocating destructors that ran during the op: their children exist from now on
   let ran := h.qs.filter (fun (q, cs) => !cs.isEmpty && s1.log.contains (Ev.fin q))
@@ -147,6 +147,21 @@ def opLine2 (h : Hist) (toks : List String) : Hist × String :=
         (h', observe "k" h' [] true)
       else bad
     | none => bad
+  | "m" :: rest =>
+    -- a mark phase left by an exception: the anchor's Mark instance reports `ids`, then throws.  The bits that stay set
+    -- (what was reported and what it owns, the roots met so far) are read by nothing in the code that exists
+    match parseIds rest with
+    | some (ids, []) =>
+      if !ids.all h.allocated || !h.kinds.any (fun p => p.2 == 'a' && h.st.isReg p.1) then bad else
+      doOp h "m" (Op.markAbort (markSet h.st ids))
+    | _ => bad
+  | ["z", idS] =>
+    match idS.toNat? with
+    | some id =>
+      if !(h.kindOf id == some 'p' || h.kindOf id == some 'q' || h.kindOf id == some 'b') then bad else
+      doOp h "z" (Op.nulldel id)
+    | none => bad
+  | ["N"] => doOp h "N" Op.delNull
   | ["s"] => doOp h "s" Op.stop
   | ["t"] => doOp h "t" Op.start
   | "e" :: rest =>
